@@ -189,6 +189,28 @@ impl<T: InternalVertexInfo + super::sealed::__Sealed> VertexInfo for T {
                 .map(RequiredProperty::new)
         }));
 
+        // Tags defined at this vertex may also be needed inside a `@fold` of this component
+        // (possibly in a nested fold), or by a filter on such a fold's count. Their values are
+        // resolved at this vertex when the fold is computed.
+        let current_vid = current_vertex.vid;
+        let properties = properties.chain(current_component.folds.values().flat_map(move |fold| {
+            let imported = fold.imported_tags.iter().filter_map(move |field_ref| match field_ref {
+                FieldRef::ContextField(ctx) if ctx.vertex_id == current_vid => {
+                    Some(ctx.field_name.clone())
+                }
+                _ => None,
+            });
+            let post_filters = fold.post_filters.iter().filter_map(move |f| match f.right() {
+                Some(Argument::Tag(FieldRef::ContextField(ctx)))
+                    if ctx.vertex_id == current_vid =>
+                {
+                    Some(ctx.field_name.clone())
+                }
+                _ => None,
+            });
+            imported.chain(post_filters).map(RequiredProperty::new)
+        }));
+
         let mut seen_property = HashSet::new();
         Box::new(properties.filter(move |r| seen_property.insert(r.name.clone())))
     }
